@@ -181,8 +181,10 @@ def inst_sibling_accounting(cx, iid):
         fa = cx.fa(r)
         forms = {}
         for loc, kind, node in r.defs.get(0, []):
-            multi = dnf_holds(fa.at(loc), [[r"lt\(1,add\(1,cast<usize>\(arg1\.fragment_id_last\)\)\)"]])[0]
-            forms["multi" if multi else "single"] = acnf(r.rvalue_expr(node["rv"]) if kind == "assign" else r.call_expr(node))
+            # "more than one fragment" is `fragment_id_last + 1 > 1` or `fragment_id_last != 0`
+            multi = dnf_holds(fa.at(loc), [[r"lt\(1,add\(1,cast<usize>\(arg1\.fragment_id_last\)\)\)"], [r"ne\(0,arg1\.fragment_id_last\)"], [r"lt\(0,arg1\.fragment_id_last\)"]])[0]
+            single = dnf_holds(fa.at(loc), [[r"le\(add\(1,cast<usize>\(arg1\.fragment_id_last\)\),1\)"], [r"eq\(0,arg1\.fragment_id_last\)"]])[0]
+            forms["multi" if multi else "single" if single else "unconditional"] = acnf(r.rvalue_expr(node["rv"]) if kind == "assign" else r.call_expr(node))
         inst.site(r, None, "receiver packet_alloc_size: %s" % forms)
         if forms != {"multi": "%d*(1 + arg1.fragment_id_last)" % M, "single": "[T]::len(arg1.data)"}:
             inst.violation(r.path, "receiver packet_alloc_size", "receiver sizes a packet as %s, expected {fragments > 1: fragments*M, else len}" % forms)
